@@ -83,6 +83,13 @@ func genC19(t *rapid.T) c19Case {
 				if rapid.Bool().Draw(t, "shorter") && len(v.Text()) > 1 {
 					w = strVal(v.Text()[:len(v.Text())/2])
 				}
+				if v.Kind == "str" && strings.Contains(string(v.S), "\r") && rapid.Bool().Draw(t, "crlf2lf") {
+					// the same text with CRLF line ends turned into LF (or CRs dropped): a different byte sequence
+					w = strVal(strings.ReplaceAll(string(v.S), "\r\n", "\n"))
+					if w.Text() == v.Text() {
+						w = strVal(strings.ReplaceAll(string(v.S), "\r", ""))
+					}
+				}
 				if w.Text() != v.Text() {
 					cc.New = &Call{API: "ssnap", Vals: []Val{w}}
 				}
